@@ -57,6 +57,28 @@ def harness_names(text):
     return [m.group(2) for m in PROOF_RE.finditer(text)]
 
 
+def load_macros():
+    import importlib.util
+    p = os.path.join(KANI_DIR, "macros.py")
+    spec = importlib.util.spec_from_file_location("kmacros", p)
+    m = importlib.util.module_from_spec(spec)
+    spec.loader.exec_module(m)
+    return m.MACROS
+
+
+def expand_macros(text):
+    """a line `//@NAME` in a harness file stands for the attribute lines MACROS[NAME] (kani/macros.py)"""
+    macros = load_macros()
+    out = []
+    for line in text.split("\n"):
+        m = re.match(r"^(\s*)//@(\w+)\s*$", line)
+        if m and m.group(2) in macros:
+            out += [m.group(1) + a for a in macros[m.group(2)]]
+        else:
+            out.append(line)
+    return "\n".join(out)
+
+
 def rewrite_attrs(text):
     """#[kani::x(..)] -> #[cfg_attr(kani, kani::x(..))] so the same text compiles natively for replay."""
     out = []
@@ -85,9 +107,11 @@ def inject_harness_file(scratch, rel, log):
     spath = os.path.join(scratch, "src", rel)
     if not os.path.exists(spath):
         raise FileNotFoundError("anchor file missing in repo: src/" + rel)
-    text = open(hpath).read()
+    text = expand_macros(open(hpath).read())
     src = open(spath).read()
     if rel == "lib.rs":
+        # many stacked #[kani::stub] attributes exceed rustc's default macro recursion limit (inserted line, nothing changed)
+        src = "#![recursion_limit = \"1024\"]\n" + src
         addition = "\n\n// ---- injected by /verif (insert-only) ----\n" + rewrite_attrs(text) + "\n"
     else:
         names = harness_names(text)
